@@ -87,6 +87,21 @@ def inv_fp(inv):
     return (type(inv).__name__, id(inv.decay_data), tuple(items))
 
 
+def result_fp(inv, tt):
+    """bit-level fingerprint of the decay-type results of an inventory (keys, order, values)"""
+    d = inv.decay(tt, "s")
+    c = inv.cumulative_decays(tt, "s")
+    enc = lambda v: fbits(v) if not hasattr(v, "is_Rational") else str(v)   # noqa: E731
+    return ([(str(k), enc(v)) for k, v in d.contents.items()], [(str(k), fbits(v)) for k, v in c.items()])
+
+
+def diff_fp(a, b):
+    ka, kb = [k for k, _ in a[0]], [k for k, _ in b[0]]
+    if ka != kb:
+        return f"nuclides {sorted(set(ka) ^ set(kb))[:4]} appear/disappear"
+    return "same nuclides, different bits"
+
+
 READERS = ["numbers", "activities", "masses", "moles", "fractions", "half_lives", "progeny", "decay", "cumulative_decays",
            "time_series", "to_csv", "len", "repr", "operators", "plot"]
 
@@ -174,6 +189,11 @@ def correspondence(rep, ctx):
             m.lines.append(f"w\t{m.tag}\treset")
             m.expect.append(("done", None))
             r = m.r
+            if s % 2 == 0:
+                # a small pool of nuclides, so that different live inventories share chain members
+                m.radio = r.sample(m.radio, 5)
+                m.names = m.radio + r.sample([n for n in m.names if n not in m.radio], 2)
+            recorded = []
             for step_i in range(30 if not hp else 12):
                 before_inv = {h: inv_fp(i) for h, (i, _) in m.live.items()}
                 before_ds = ds_fingerprint(dd)
@@ -185,6 +205,9 @@ def correspondence(rep, ctx):
                     m.log.append(f"h{h}.<{kind}>")
                     try:
                         do_reader(rd, inv, kind, r, tmpdir, hp)
+                        if kind in ("decay", "cumulative_decays", "time_series", "numbers", "activities") and len(recorded) < 8:
+                            tt = 10.0 ** r.uniform(0, 7)
+                            recorded.append((list(inv.contents.items()), m.live[h][1], tt, result_fp(inv, tt)))
                     except Exception as e:  # noqa: BLE001
                         rep.violation("failing-input", f"history {m.log!r}: reader raised {type(e).__name__}: {e}",
                                       {"history": m.log}, True)
@@ -221,6 +244,53 @@ def correspondence(rep, ctx):
                                   {"history": m.log}, True)
                     break
                 m.snapshot()
+            # final sweep: every kind of reader on every live inventory (mixtures, aged ones, with stable nuclides)
+            for h_, (inv_, _) in list(m.live.items())[:4]:
+                for kind in READERS:
+                    if hp and kind in ("plot", "time_series", "operators") and len(inv_.contents) > 2:
+                        continue
+                    before_inv = {h2: inv_fp(i) for h2, (i, _) in m.live.items()}
+                    before_ds = ds_fingerprint(dd)
+                    try:
+                        do_reader(rd, inv_, kind, r, tmpdir, hp)
+                    except Exception as e:  # noqa: BLE001
+                        rep.violation("failing-input", f"history {m.log!r} then h{h_}.<{kind}>: raised {type(e).__name__}: {e}",
+                                      {"history": m.log}, True)
+                        break
+                    rep.dist("sweep-reader:" + kind)
+                    if {h2: inv_fp(i) for h2, (i, _) in m.live.items()} != before_inv or ds_fingerprint(dd) != before_ds:
+                        bad += 1
+                        rep.violation("failing-input", f"history {m.log!r} then h{h_}.<{kind}> on {list(inv_.contents)[:5]}: a live "
+                                      "inventory or the shared dataset's templates changed", {"history": m.log}, True)
+                        break
+                # … and on the aged inventory (it holds the stable end-members with non-zero amounts)
+                try:
+                    members = [n for n in inv_.contents if dd.half_life(n) != float("inf")]
+                    if members:
+                        aged = inv_.decay(float(dd.half_life(r.choice(members), "s")) * r.choice([0.5, 3.0, 40.0]), "s")
+                        before_ds = ds_fingerprint(dd)
+                        aged.cumulative_decays(10.0 ** r.uniform(0, 6), "s")
+                        after_cum = ds_fingerprint(dd)
+                        aged.decay(10.0 ** r.uniform(0, 6), "s")
+                        rep.dist("sweep-reader:aged")
+                        if after_cum != before_ds or ds_fingerprint(dd) != before_ds:
+                            bad += 1
+                            rep.violation("failing-input", f"history {m.log!r}: cumulative_decays/decay of the aged inventory "
+                                          f"h{h_}.decay(…) changed the shared dataset's pre-allocated templates", {"history": m.log}, True)
+                            break
+                except Exception as e:  # noqa: BLE001
+                    rep.violation("failing-input", f"history {m.log!r}: aged inventory raised {type(e).__name__}: {e}", {"history": m.log}, True)
+                    break
+            # the same calculations on fresh objects with the same contents must give bit-identical results now
+            for snap, dsi, tt, fp in recorded:
+                again = result_fp(m.C(dict(snap), "num", False, m.datasets[dsi]), tt)
+                rep.dist("re-run-after-history")
+                if again != fp:
+                    bad += 1
+                    rep.violation("failing-input", f"history {m.log!r}: decay / cumulative_decays of an inventory holding "
+                                  f"{[k for k, _ in snap]} returns a different result after the later calculations than before "
+                                  f"({diff_fp(fp, again)})", {"history": m.log}, True)
+                    break
             all_lines += m.lines
             metas.append(m)
     model = lean_driver(all_lines) if ctx.build_ok else None
